@@ -1474,9 +1474,46 @@ func ruleRLEADER(p *Program, r *Reporter) {
 		r.Anchor(id, "client.(*ovsdbClient).isEndpointLeader / primaryDBName")
 		return
 	}
-	n := 0
-	for g := range p.PrivateRegion(fn) {
-		var eqEdge, cmpBlock *ssa.BasicBlock
+	region := p.PrivateRegion(fn)
+	ci := getCallIndex(p)
+	isFieldLoad := func(v ssa.Value) bool {
+		ld, ok := v.(*ssa.UnOp)
+		if !ok {
+			return false
+		}
+		fa, ok := ld.X.(*ssa.FieldAddr)
+		return ok && fieldOfAddr(fa) == nameFld
+	}
+	// a value that stands for the client's database name in g: the field itself, or a
+	// parameter of a private helper that receives it at every call site
+	nameBound := func(g *ssa.Function, v ssa.Value) bool {
+		if isFieldLoad(v) {
+			return true
+		}
+		prm, ok := v.(*ssa.Parameter)
+		if !ok || g == fn {
+			return false
+		}
+		idx := -1
+		for i, q := range g.Params {
+			if q == prm {
+				idx = i
+			}
+		}
+		sites := ci.sites[g]
+		if idx < 0 || len(sites) == 0 {
+			return false
+		}
+		for _, s := range sites {
+			c, ok := s.instr.(ssa.CallInstruction)
+			if !ok || idx >= len(c.Common().Args) || !isFieldLoad(c.Common().Args[idx]) {
+				return false
+			}
+		}
+		return true
+	}
+	// the name comparison of g and its "equal" edge
+	nameCompare := func(g *ssa.Function) (cmp, eq *ssa.BasicBlock) {
 		for _, b := range g.Blocks {
 			if len(b.Instrs) == 0 {
 				continue
@@ -1489,47 +1526,133 @@ func ruleRLEADER(p *Program, r *Reporter) {
 			if !ok || (bo.Op != token.EQL && bo.Op != token.NEQ) {
 				continue
 			}
-			isName := func(v ssa.Value) bool {
-				ld, ok := v.(*ssa.UnOp)
-				if !ok {
-					return false
-				}
-				fa, ok := ld.X.(*ssa.FieldAddr)
-				return ok && fieldOfAddr(fa) == nameFld
-			}
-			if !isName(bo.X) && !isName(bo.Y) {
+			if !nameBound(g, bo.X) && !nameBound(g, bo.Y) {
 				continue
 			}
-			if loopHeaderOf(b) == nil {
-				continue
-			}
-			cmpBlock = b
-			eqEdge = b.Succs[0]
+			cmp, eq = b, b.Succs[0]
 			if bo.Op == token.NEQ {
-				eqEdge = b.Succs[1]
+				eq = b.Succs[1]
 			}
 		}
-		if cmpBlock == nil {
+		return
+	}
+	isZeroConst := func(v ssa.Value) bool {
+		c, ok := v.(*ssa.Const)
+		if !ok {
+			return false
+		}
+		if c.Value == nil {
+			return true
+		}
+		switch c.Value.Kind() {
+		case constant.Bool:
+			return !constant.BoolVal(c.Value)
+		case constant.String:
+			return constant.StringVal(c.Value) == ""
+		case constant.Int:
+			return constant.Sign(c.Value) == 0
+		}
+		return false
+	}
+	successReturn := func(b *ssa.BasicBlock) *ssa.Return {
+		ret, ok := b.Instrs[len(b.Instrs)-1].(*ssa.Return)
+		if !ok || len(ret.Results) == 0 {
+			return nil
+		}
+		if c, isC := ret.Results[len(ret.Results)-1].(*ssa.Const); !isC || !c.IsNil() {
+			return nil
+		}
+		return ret
+	}
+	n := 0
+	// helpers that contain the comparison: anything they return on a path that has not
+	// established "this is our row" must be the zero verdict
+	helperWithCompare := map[*ssa.Function]bool{}
+	for g := range region {
+		if g == fn || g.Parent() != nil {
 			continue
 		}
-		h := loopHeaderOf(cmpBlock)
+		cmp, eq := nameCompare(g)
+		if cmp == nil {
+			continue
+		}
+		helperWithCompare[g] = true
 		for _, b := range g.Blocks {
-			if !inLoopOf(h, b) && !(h.Dominates(b) && blockReaches(cmpBlock, b) && b != h) {
-				continue
-			}
 			ret, ok := b.Instrs[len(b.Instrs)-1].(*ssa.Return)
-			if !ok || len(ret.Results) == 0 {
-				continue
-			}
-			if c, isC := ret.Results[len(ret.Results)-1].(*ssa.Const); !isC || !c.IsNil() {
-				continue
-			}
-			// returns after the loop ran out of rows are not verdicts about a row
-			if !blockReachesAvoiding(h, b, nil) || !loopBodyReturn(h, b) {
+			if !ok {
 				continue
 			}
 			n++
-			ok2 := len(eqEdge.Preds) == 1 && eqEdge.Dominates(b)
+			established := len(eq.Preds) == 1 && eq.Dominates(b)
+			zero := true
+			for i, v := range ret.Results {
+				if i == len(ret.Results)-1 {
+					continue // the error
+				}
+				if !isZeroConst(v) {
+					zero = false
+				}
+			}
+			ok2 := established || zero
+			r.Ob(id, funcName(g), "verdict from our database's row", ret.Pos(), ok2, true,
+				ifs(ok2, "a verdict other than the zero value is only returned once the row was found to be the client's database", "the helper returns a leadership verdict for a row that was not checked to be the client's own database: the _Server row of another database (e.g. _Server itself, not clustered) makes a follower look like the leader"))
+		}
+	}
+	// the loop over the rows in isEndpointLeader (or a private helper that holds it)
+	for g := range region {
+		if g.Parent() != nil || helperWithCompare[g] {
+			continue
+		}
+		cmp, eq := nameCompare(g)
+		// branches on the result of a helper that holds the comparison
+		var helperBranches []*ssa.BasicBlock
+		for _, b := range g.Blocks {
+			if len(b.Instrs) == 0 {
+				continue
+			}
+			iff, ok := b.Instrs[len(b.Instrs)-1].(*ssa.If)
+			if !ok {
+				continue
+			}
+			for _, b2 := range g.Blocks {
+				for _, ins := range b2.Instrs {
+					c, ok := ins.(*ssa.Call)
+					if !ok || !helperWithCompare[c.Call.StaticCallee()] {
+						continue
+					}
+					if forwardDerived(g, c)[iff.Cond] {
+						helperBranches = append(helperBranches, b)
+					}
+				}
+			}
+		}
+		var h *ssa.BasicBlock
+		if cmp != nil {
+			h = loopHeaderOf(cmp)
+		} else if len(helperBranches) > 0 {
+			h = loopHeaderOf(helperBranches[0])
+		}
+		if h == nil {
+			continue
+		}
+		for _, b := range g.Blocks {
+			ret := successReturn(b)
+			if ret == nil || !loopBodyReturn(h, b) {
+				continue
+			}
+			n++
+			ok2 := false
+			if cmp != nil && len(eq.Preds) == 1 && eq.Dominates(b) {
+				ok2 = true
+			}
+			for _, hb := range helperBranches {
+				// the return lies on one arm of a branch on the helper's answer; which arm is
+				// the helper's business (checked above): every arm that reaches the return
+				// without the branch would bypass the answer
+				if hb.Dominates(b) && hb != b {
+					ok2 = true
+				}
+			}
 			r.Ob(id, funcName(g), "verdict from our database's row", ret.Pos(), ok2, true,
 				ifs(ok2, "this verdict is only reached for the row whose name is the client's database", "a leadership verdict is returned for a row that was not checked to be the client's own database: the _Server row of another database (e.g. _Server itself, not clustered) makes a follower look like the leader"))
 		}
@@ -1584,12 +1707,12 @@ func ruleTCOMMIT(p *Program, r *Reporter) {
 		return
 	}
 	region := p.PrivateRegion(fn)
-	writesRefs := func(g *ssa.Function) bool {
+	reaches := func(g *ssa.Function, name string) bool {
 		for _, h := range p.Reach(g) {
 			for _, b := range h.Blocks {
 				for _, ins := range b.Instrs {
 					if c, ok := ins.(*ssa.Call); ok {
-						if sc := c.Call.StaticCallee(); sc != nil && sc.Name() == "UpdateReferences" {
+						if sc := c.Call.StaticCallee(); sc != nil && sc.Name() == name {
 							return true
 						}
 					}
@@ -1603,8 +1726,9 @@ func ruleTCOMMIT(p *Program, r *Reporter) {
 		if g.Parent() != nil {
 			continue
 		}
-		var apply *ssa.Call
-		var refs []*ssa.Call
+		// events in g: "rows applied" and "references updated", directly or through a
+		// private helper / a closure handed to a callee
+		var applies, refs []*ssa.Call
 		for _, b := range g.Blocks {
 			for _, ins := range b.Instrs {
 				c, ok := ins.(*ssa.Call)
@@ -1612,21 +1736,29 @@ func ruleTCOMMIT(p *Program, r *Reporter) {
 					continue
 				}
 				name := ""
+				var callee *ssa.Function
 				if sc := c.Call.StaticCallee(); sc != nil {
-					name = sc.Name()
+					name, callee = sc.Name(), sc
 				} else if c.Call.IsInvoke() {
 					name = c.Call.Method.Name()
 				}
 				switch {
 				case name == "ApplyCacheUpdate":
-					apply = c
+					applies = append(applies, c)
 				case name == "UpdateReferences":
 					refs = append(refs, c)
 				default:
-					// a call handed a closure that updates the references (ForReferenceUpdates)
+					if callee != nil && region[callee] && callee != g {
+						if reaches(callee, "ApplyCacheUpdate") {
+							applies = append(applies, c)
+						}
+						if reaches(callee, "UpdateReferences") {
+							refs = append(refs, c)
+						}
+					}
 					for _, a := range c.Call.Args {
 						if mc, ok := a.(*ssa.MakeClosure); ok {
-							if cf, ok := mc.Fn.(*ssa.Function); ok && writesRefs(cf) {
+							if cf, ok := mc.Fn.(*ssa.Function); ok && reaches(cf, "UpdateReferences") {
 								refs = append(refs, c)
 							}
 						}
@@ -1634,14 +1766,19 @@ func ruleTCOMMIT(p *Program, r *Reporter) {
 				}
 			}
 		}
-		if apply == nil {
+		if len(applies) == 0 {
 			continue
 		}
 		for _, rc := range refs {
 			n++
-			ok := apply.Block().Dominates(rc.Block()) && errorStops(apply, rc.Block())
+			ok := false
+			for _, apply := range applies {
+				if apply != rc && apply.Block().Dominates(rc.Block()) && errorStops(apply, rc.Block()) {
+					ok = true
+				}
+			}
 			r.Ob(id, funcName(g), "reference index after rows", rc.Pos(), ok, true,
-				ifs(ok, "the reference index is updated only after ApplyCacheUpdate succeeded", "the reference index is updated although ApplyCacheUpdate may not have run or may have failed: a commit that fails half way leaves references to rows that were never stored, and later garbage-collection decisions depend on that history"))
+				ifs(ok, "the reference index is updated only after the rows were applied successfully", "the reference index is updated although ApplyCacheUpdate may not have run or may have failed: a commit that fails half way leaves references to rows that were never stored, and later garbage-collection decisions depend on that history"))
 		}
 	}
 	if n < 1 {
@@ -2041,6 +2178,40 @@ func ruleTUUIDFREE(p *Program, r *Reporter) {
 					for _, a := range c.Call.Args {
 						if isUUIDLoad(a) {
 							lookups = append(lookups, c)
+						}
+					}
+				default:
+					// a private helper that performs the lookup on the uuid it is handed
+					h := c.Call.StaticCallee()
+					if h == nil || pkgOf(h) != pkgOf(g) || len(h.Blocks) == 0 {
+						break
+					}
+					for i, a := range c.Call.Args {
+						if !isUUIDLoad(a) || i >= len(h.Params) {
+							continue
+						}
+						prm := h.Params[i]
+						for _, hb := range h.Blocks {
+							for _, hi := range hb.Instrs {
+								hc, ok := hi.(*ssa.Call)
+								if !ok {
+									continue
+								}
+								hn := ""
+								if sc := hc.Call.StaticCallee(); sc != nil {
+									hn = sc.Name()
+								} else if hc.Call.IsInvoke() {
+									hn = hc.Call.Method.Name()
+								}
+								if hn != "Get" && hn != "HasRow" && hn != "Row" {
+									continue
+								}
+								for _, ha := range hc.Call.Args {
+									if ha == ssa.Value(prm) {
+										lookups = append(lookups, c)
+									}
+								}
+							}
 						}
 					}
 				}
